@@ -180,3 +180,7 @@ pub use data::Level2DataRecords;
 pub use env::Env;
 pub use market_env::MarketEnv;
 pub use runner::{market_sim_runner, sim_runner};
+
+#[cfg(any(kani, verif_replay))]
+#[path = "/verif/harness/de_lib.rs"]
+pub mod verif;
